@@ -1,0 +1,38 @@
+//go:build verif
+
+package service
+
+import (
+	"github.com/icon-project/goloop/module"
+	"github.com/icon-project/goloop/service/contract"
+	"github.com/icon-project/goloop/service/txresult"
+)
+
+// VerifC10ExecuteTxs builds a transition on parent exactly like NewTransition
+// and runs the execution prefix of doExecute (world context, contract
+// context, OnExecutionBegin) followed by the real executeTxs (mode selection +
+// executeTxsSequential / executeTxsConcurrent) over the normal transactions.
+// It returns the receipt buffer as the executor left it and the executor's
+// error.  Add-only hook for the /verif harness (property C10).
+func VerifC10ExecuteTxs(parent module.Transition, txs module.TransactionList, bi module.BlockInfo, n int) ([]txresult.Receipt, error) {
+	t := newTransition(parent.(*transition), nil, txs, bi, nil, true)
+	t.mutex.Lock()
+	t.step = stepExecuting
+	t.mutex.Unlock()
+	wc, err := t.newWorldContext(true)
+	if err != nil {
+		return nil, err
+	}
+	ctx := t.newContractContext(wc)
+	ctx.ClearCache()
+	ctx.SetProperty(contract.PropInitialSnapshot, ctx.GetSnapshot())
+	if err := t.plt.OnExecutionBegin(ctx, t.log); err != nil {
+		return nil, err
+	}
+	rctBuf := make([]txresult.Receipt, n)
+	err = t.executeTxs(t.normalTransactions, ctx, rctBuf)
+	return rctBuf, err
+}
+
+// VerifC10RetryCount exposes the retry bound used by both executors.
+const VerifC10RetryCount = RetryCount
